@@ -76,6 +76,8 @@ func C12(c *core.Ctx) {
 	// a referenced file is registered under its QUALIFIED name, so the references inside it resolve against the file that contains
 	// them and not against the directory the process happens to run in
 	emit(c, a.ParentPath())
+	// an output file's bytes do not depend on what an earlier run left there
+	emit(c, a.OutputFilesTruncated())
 	c.Floor("B-DET3:sources", len(t.Sources), 2, "file-path taint sources")
 	c.Floor("B-DET3:sanitiser", t.Sanitise, 1, "filepath.Base applications on the tainted path")
 	controls(c, "C12")
